@@ -30,7 +30,7 @@ func adversarial(c *vh.Ctx) {
 		scen.NewRandom(e, prof).Run()
 		c.Eval()
 		for _, v := range e.Viol {
-			c.Violation(v.Sig, v.Msg, map[string]any{"index": i, "stream": "c01-adversarial", "profile": prof, "steps": e.Log, "trace": e.TraceTail(80)})
+			c.Violation(v.Sig, v.Msg, map[string]any{"index": i, "stream": "c01-adversarial", "profile": prof, "steps": e.Log, "trace": e.TraceTail(600)})
 		}
 		for k, v := range e.Counts {
 			c.Count(k, v)
